@@ -172,7 +172,7 @@ fn search_parallel(args: &HiArgs, mode: SearchMode) -> anyhow::Result<bool> {
 
     let started_at = std::time::Instant::now();
     let haystack_builder = args.haystack_builder();
-    let bufwtr = args.buffer_writer();
+    let mut bufwtr = args.buffer_writer();
     let stats = args.stats().map(std::sync::Mutex::new);
     let matched = AtomicBool::new(false);
     let searched = AtomicBool::new(false);
@@ -233,6 +233,9 @@ fn search_parallel(args: &HiArgs, mode: SearchMode) -> anyhow::Result<bool> {
         let stats = locked_stats.lock().unwrap();
         let mut wtr = searcher.printer().get_mut();
         let _ = print_stats(mode, &stats, started_at, &mut wtr);
+        // The statistics are not the results of another file, so there is
+        // no file separator in front of them.
+        bufwtr.separator(None);
         let _ = bufwtr.print(&mut wtr);
     }
     Ok(matched.load(Ordering::SeqCst))
